@@ -210,11 +210,6 @@ def handleAnalysis : List String → Option String
         let vx := chkRat "rescale_prob" (parseRat? x) (some xr)
         s!"{vf} {vx}"
       | _, _, _, _, _, _ => "ERR parse")
-  | ["fsscost", pth, a, b, c, rows] =>
-    some (match parseRat? pth, parseRat? a, parseRat? b, parseRat? c, parseRows? rows with
-      | some pth, some a, some b, some c, some rows =>
-        toString (cost { pth := pth, A := a, B := b, C := c } rows)
-      | _, _, _, _, _ => "ERR parse")
   | ["fsscostle", pth, a, b, c, rows, pth', a', b', c', rows', factor, slack] =>
     -- is cost(θ, rows) ≤ factor * cost(θ', rows') + slack ?  (rows carry the scale d**nu of their θ)
     some (match parseRat? pth, parseRat? a, parseRat? b, parseRat? c, parseRows? rows, parseRat? pth',
